@@ -155,7 +155,7 @@ CLAIMED["C04"] = dict(
     text="overlap_isr(n, (I,J)) is derived for all enumerated variants, class pairs and orders and handed to checkEquiv against 0 (or the "
          "antisymmetrised delta product at order 0, equal classes); overlap_precursor(I,J) against (J,I). By checkEquiv_sound an accepted "
          "check holds for all amplitude tensors with the declared antisymmetry, all orbital models and all index assignments. The set of "
-         "(variant, classes, order, partitioning) is enumerated up to order 2 (cost of the Python derivation). One genuine defect repaired. Spec level (all orders): isr_orthonormal_series proves that "
+         "(variant, classes, order, partitioning) is enumerated up to order 2 (cost of the Python derivation; thorough: + fourth order for the dip hh space). Two genuine defects repaired. Spec level (all orders): isr_orthonormal_series proves that "
          "S^(-1/2) built from the table of expand_S_taylor (model Adc.expandTaylor, compared with the code for all small arguments "
          "on every run) satisfies S^(-1/2) S S^(-1/2) = 1 order by order for every overlap series with coefficients in any "
          "(non-commutative) Q-algebra; mem_genTermOrders / nodup_genTermOrders / coeff_list_prod prove that gen_term_orders "
